@@ -30,7 +30,7 @@ LEVEL_NOTE = ("virtual clock (async_solipsism + time_machine); timer lateness is
 RULE = ("seeded configurations x latency scripts x addition scripts; distinct = canonical case JSON; non-trivial = >=8 "
         "ticks observed and (a latency >= 1 period or a series added while running or a non-aligned creation phase)")
 REQUIRED_BUCKETS = ["align:none", "align:epoch", "align:past-nonmultiple", "align:future", "creation-exactly-aligned",
-                    "creation-1us-off", "align_to-in-non-utc-timezone", "align_to-in-daylight-saving-zone", "latency>=1period", "latency-several-periods", "series-added-between-ticks",
+                    "creation-1us-off", "align_to-in-non-utc-timezone", "align_to-in-daylight-saving-zone", "resampling-function-yields-NaN-for-some-ticks", "latency>=1period", "latency-several-periods", "series-added-between-ticks",
                     "series-added-during-slow-tick", "catch-up-observed", "multi-series", "actor-tier",
                     "actor-tier:timer-late>=1period", "series-ended:SourceStoppedError",
                     "series-ended:remove_timeseries", "moving-window-tier", "moving-window-tier:align:none",
@@ -94,12 +94,13 @@ def gen(rng: Any, tier: str, i: int) -> Any:
             series[-1]["add_in_tick"] = [t_no, 0.5 * min(l, 1.0)]
     tz_min = rng.choice([0, 0, 330, -210, 345, 120, -720]) if ak != "none" else 0
     zone = None
-    if ak in ("epoch", "past") and period <= 60.0 and rng.random() < 0.25:
-        # align_to written in a zone with daylight saving, the run straddling the clock change of 2024-03-31 01:00 UTC
+    if ak in ("epoch", "past") and rng.random() < 0.25:
+        # align_to written in a zone with daylight saving, the run straddling a clock change (2024-03-31 or 2024-10-27,
+        # 01:00 UTC) or the end of the wall-clock hour that the change skips / repeats
         zone = "Europe/Berlin"
-        to_change = 90 * 86400 + 3600  # seconds from the harness epoch (2024-01-01 00:00 UTC) to the change
+        to_change = rng.choice([90, 300]) * 86400 + 3600 + rng.choice([0, 3600])  # seconds from the harness epoch
         start = round(start % period + (int(to_change / period) - rng.randint(3, 8)) * period, 6)
-    return {"align_zone": zone, "align_tz_min": tz_min, "period": period, "align": align, "align_kind": ak, "start_offset": start, "max_age": 3.0, "init_len": 4,
+    return {"nan_every": rng.choice([0, 0, 0, 3, 5]), "align_zone": zone, "align_tz_min": tz_min, "period": period, "align": align, "align_kind": ak, "start_offset": start, "max_age": 3.0, "init_len": 4,
             "max_len": 16, "ticks": ticks, "series": series, "lat": lat, "drain_periods": maxlat + 3, "phase": phase}
 
 
@@ -387,6 +388,8 @@ def check(case: dict[str, Any], rec: Any) -> None:
     p = c["period"]
     per = timedelta(seconds=p)
     rec.bucket("align:" + {"none": "none", "epoch": "epoch", "past": "past-nonmultiple", "future": "future"}[c["align_kind"]])
+    if c.get("nan_every"):
+        rec.bucket("resampling-function-yields-NaN-for-some-ticks")
     if c.get("align_zone"):
         rec.bucket("align_to-in-daylight-saving-zone")
     elif c.get("align_tz_min"):
